@@ -117,7 +117,32 @@ def _cases(draw, ctx):
         else:
             body = []
         replace = {"header": x, "kind": kind, "body": body}
-    return {"spec": spec, "selections": sels, "as_tuple": draw(st.booleans()), "replace": replace}
+    dup = None
+    if draw(st.integers(0, 2)) == 0:
+        # a header that occurs TWICE in the file, with different bodies.  Which body counts is not asserted
+        # (nothing says so); what is asserted is the statement's own relation: a restricted parse of this very
+        # file gives the tracks, metadata, sync track and global events that the unrestricted parse gives
+        names = present + ["Events", "Events", "Song", "SyncTrack"]
+        h = draw(st.sampled_from(names))
+        secs0 = dict(S.sections_of(spec))
+        if h == "Events":
+            body = secs0["Events"] + [f'{c["max_tick"]} = E "section second copy"']
+        elif h == "Song":
+            body = secs0["Song"] + ['Name = "second copy"', 'Charter = "second copy"']
+        elif h == "SyncTrack":
+            body = list(secs0["SyncTrack"])
+        else:
+            how = draw(st.sampled_from(["other", "shorter", "longer", "empty"]))
+            if how == "other":
+                body = list(secs0[draw(st.sampled_from(present))])
+            elif how == "shorter":
+                body = [ln for ln in secs0[h] if " = N 5 " not in ln][1:]
+            elif how == "longer":
+                body = secs0[h] + [f'{c["max_tick"]} = E second_copy']
+            else:
+                body = []
+        dup = {"header": h, "body": body, "pos": draw(st.sampled_from(["end", "end", "after_first", "start"]))}
+    return {"spec": spec, "selections": sels, "as_tuple": draw(st.booleans()), "replace": replace, "dup": dup}
 
 
 def strat_cases(ctx: Ctx):
@@ -285,7 +310,52 @@ def check_case(ctx: Ctx, case) -> None:
         ctx.classes[f"replace_{rep['kind']}"] += 1
         ctx.classes[f"replaced_section_alone_{outcomes[1][0]}"] += 1
         nontrivial = True
-    ctx.note([text, case["selections"], rep], nontrivial=nontrivial,
+    dup = case.get("dup")
+    if dup:
+        secs = list(S.sections_of(spec))
+        entry = (dup["header"], dup["body"])
+        if dup["pos"] == "end":
+            secs.append(entry)
+        elif dup["pos"] == "start":
+            secs.insert(0, entry)
+        else:
+            k = next(i for i, (n, _) in enumerate(secs) if n == dup["header"])
+            secs.insert(k + 1, entry)
+        text3 = S.render_sections(secs)
+        rc = {"text": text3, "repeated_header": dup["header"]}
+        try:
+            full3 = L.parse(text3)
+        except Exception:  # noqa: BLE001  (whether a repeated header is accepted at all is not asserted)
+            ctx.classes["repeated_header_unrestricted_raises"] += 1
+        else:
+            ctx.classes[f"repeated_header_{'required' if dup['header'] in S.REQUIRED else 'track'}"] += 1
+            present3 = _keys(full3)
+            common3 = {"metadata": obs_metadata(full3.metadata), "sync": obs_sync(full3.sync_track),
+                       "global": obs_global(full3.global_events_track)}
+            for sel in case["selections"] + [sorted(present3)]:
+                if sel is None:
+                    continue
+                rc = {"text": text3, "selection": sel, "as_tuple": case["as_tuple"], "repeated_header": dup["header"]}
+                try:
+                    ch = L.parse(text3, want_tracks=(tuple if case["as_tuple"] else list)(_pair(h) for h in sel))
+                except Exception as e:  # noqa: BLE001
+                    ctx.fail("selection-parses", f"file with [{dup['header']}] written twice: the unrestricted parse "
+                                                 f"succeeds but selection {sel} raised {type(e).__name__}: {e}", rc)
+                    continue
+                want_keys = present3 & set(sel)
+                if _keys(ch) != want_keys:
+                    ctx.fail("selection-keys", f"file with [{dup['header']}] written twice, selection {sel}: tracks "
+                                               f"{sorted(_keys(ch))}, expected {sorted(want_keys)}", rc)
+                    continue
+                _common(ctx, "selection-common", common3, ch, rc)
+                for h in want_keys:
+                    if obs_track(_track(ch, h)) != obs_track(_track(full3, h)) or not (_track(ch, h) == _track(full3, h)):
+                        ctx.fail("selection-track-identical",
+                                 f"file with [{dup['header']}] written twice, selection {sel}: track {h} differs from "
+                                 f"the unrestricted parse of the same file: "
+                                 f"{diff_paths(obs_track(_track(full3, h)), obs_track(_track(ch, h)))}", rc)
+            nontrivial = True
+    ctx.note([text, case["selections"], rep, dup], nontrivial=nontrivial,
              classes=[f"tracks_{min(len(present), 9)}"],
              sample={"tracks": sorted(present), "selections": case["selections"],
                      "replace": rep})
